@@ -1,4 +1,4 @@
-mod ctx; mod model; mod rng; mod util; mod props; mod chartable; mod render; mod gen; mod corpus;
+mod ctx; mod model; mod rng; mod util; mod props; mod chartable; mod render; mod gen; mod corpus; mod wf;
 use ctx::{Ctx, Known};
 
 fn load_known(path: &str) -> Vec<Known> {
@@ -20,8 +20,10 @@ fn main() {
         "C11" => props::c11::run(&mut ctx),
         "C12" => props::c12::run(&mut ctx),
         "C09" => props::c09::run(&mut ctx),
+        "C01" => props::c01::run(&mut ctx),
         "C04" => props::c04::run(&mut ctx),
         "C06" => props::c06::run(&mut ctx),
+        "C07" => props::c07::run(&mut ctx),
         _ => { eprintln!("unknown property {prop}"); std::process::exit(2); }
     }
     ctx.finish(out);
